@@ -314,19 +314,33 @@ class World:
             self._fail(Violation('event-cap', self.gseq))
         self.log.append((self.gseq, round(self.T[me], 9), me, kind) + tuple(detail))
         self.last_op[me] = detail[2] if (kind == 'coll' and len(detail) > 2) else kind
+        # the whole-job fail-stop lands only where the property's notion of "stopping" applies: at the first
+        # agreement point of the time loop (an allreduce(LAND)) after the drawn event, never inside a checkpoint
         if (self.abort_at is not None and not self.job_aborted and self.gseq >= self.abort_at
-                and self.no_abort_depth == 0):
+                and self.no_abort_depth == 0
+                and (not self.sched.get('abort_at_loop_boundary') or self._at_loop_boundary(kind, detail))):
             self.job_aborted = True
             self.count_fault('abort')
             self.log.append((self.gseq, round(self.T[me], 9), me, 'fault', 'abort'))
         if self.job_aborted:
             raise SimAbort()
 
-    def preempt(self, me, kind, detail=()):
-        """A non-blocking simulator call (FS operation, clock read): log it and
-        give the scheduler the chance to run somebody else first."""
+    @staticmethod
+    def _at_loop_boundary(kind, detail):
+        return kind == 'coll' and len(detail) > 3 and detail[2] == 'allreduce' and 'LAND' in str(detail[3])
+
+    def preempt(self, me, kind, detail=(), yield_time=False):
+        """A non-blocking simulator call (FS operation, clock read, poll): log it and
+        give the scheduler the chance to run somebody else first.  With yield_time the caller's
+        clock is first advanced to the next event of any other runnable rank, so that a rank
+        polling in a loop cannot starve the rank it is waiting for."""
         self.event(me, kind, detail)
-        self._make_ready(me, self.T[me])
+        t = self.T[me]
+        if yield_time:
+            others = [self.next_T[r] for r in range(self.n) if r != me and self.state[r] == 'ready']
+            if others:
+                t = max(t, min(others))
+        self._make_ready(me, t)
         self._park(me)
 
     # ---- collectives -----------------------------------------------------
@@ -488,9 +502,10 @@ class World:
                 r0 = bad[0]
                 self.error = Violation('exception', dict(rank=r0, type=self.excs[r0][0],
                                                          msg=self.excs[r0][1], ranks=bad))
-            elif any(self.mailbox.values()):
+            elif any(v for k, v in self.mailbox.items() if k[0] != 'posted'):
                 self.error = Violation('unmatched-message', dict(
-                    messages=[(k, [(m['src'], m['tag']) for m in v]) for k, v in sorted(self.mailbox.items()) if v]))
+                    messages=[(k, [(m['src'], m['tag']) for m in v]) for k, v in sorted(self.mailbox.items(), key=repr)
+                              if v and k[0] != 'posted']))
             elif self.records:
                 self.error = Violation('unmatched-collective', dict(
                     records=[(k, self.records[k].op, sorted(self.records[k].payload))
